@@ -74,6 +74,7 @@ struct Result {
   uint64_t grace_phases = 0;
   uint64_t uaf_notes = 0;        // use-after-free on blocks whose tag policy is "note" (not a property)
   uint64_t divergences = 0;      // guided replay: recorded choice not enabled
+  bool forced_nontrivial = false; // the harness declared the run non-trivial by its own rule (note_nontrivial)
   int nvt = 0;
   const uint8_t *choices = nullptr;  // recorded decisions (valid until the next run)
   size_t nchoices = 0;
